@@ -22,11 +22,20 @@ func c19Scenarios(tier string) []e3Scenario {
 	if tier == "thorough" {
 		cfgs = c19Cfgs(tier)
 	}
+	hwfIdx := -1
+	for i := range q {
+		if q[i].Segs[0] == "hwf" {
+			hwfIdx = i
+		}
+	}
 	var sets [][]int
 	for i := range q {
 		for j := i; j < len(q); j++ {
 			if tier != "thorough" && (i == 6 || j == 6 || i == 3 || j == 3) && i != j {
 				continue // quick: the nested-dispatch and 404 requests only against themselves
+			}
+			if tier != "thorough" && j >= 14 && i != j && i != 0 && i != 12 {
+				continue // quick: the XML entity, regex, custom-verb and tail-wildcard requests against themselves, the first GET and the negotiated entity
 			}
 			sets = append(sets, []int{i, j})
 		}
@@ -39,7 +48,7 @@ func c19Scenarios(tier string) []e3Scenario {
 	for _, cfg := range cfgs {
 		for _, set := range sets {
 			for _, serve := range []bool{false, true} {
-				hwf := set[0] == len(q)-1 || set[len(set)-1] == len(q)-1
+				hwf := set[0] == hwfIdx || set[len(set)-1] == hwfIdx
 				if serve && tier != "thorough" && cfg.Kind != "encoding" && !hwf {
 					continue // quick: ServeHTTP entry only where it installs the encoder itself or reaches the plain handler
 				}
